@@ -57,6 +57,34 @@ def main():
             for ty2 in (ty, "MPS" if ty == "LP" else "LP"):
                 cid = "f_%s_%s" % (n, ty2)
                 cases.append((cid, "CASE %s\n%sREADPROB in_%s %s\nSOLVE EXACT P\nACCESS\nWRITEPROB rw_%s %s\nDUMP\n" % (cid, mkfile("in_" + cid, FILES[n]), cid, ty2, cid, ty2)))
+        # growth thresholds: K empty columns / rows, then a new coefficient in a packed column (relocation paths of the store)
+        base = "LP g MAX 3 2\nCOL x 3 0 inf\nCOL y 2 0 inf\nCOL z 4 0 inf\nROW c1 L 12 0 2 0 3 1 2\nROW c2 L 10 0 2 1 5 2 3\n"
+        ks = range(0, 1150) if ck.thorough() else list(range(0, 1150, 7)) + list(range(980, 1012))
+        for K in ks:
+            cid = "g%d" % K
+            cases.append((cid, "CASE %s\n%sNEWCOL 0 0 inf %d\nCHG coef 1 0 7\nCHG coef 0 2 1\nNEWROW 1 L %d\nCHG coef %d 1 2\nDUMP\nSOLVE DUAL\nACCESS\n" % (cid, base, K, K % 120, 1 + (K % 120))))
+        # solve - grow - warm start histories (pricing norms and status arrays must follow the dimensions)
+        for hi in range(200 if ck.thorough() else 40):
+            lp = lps[hi % len(lps)]
+            n, m = len(lp["cols"]), len(lp["rows"])
+            if n == 0:
+                continue
+            cid = "w%d" % hi
+            lines = ["CASE %s" % cid, lp_block(lp), "PARAM 0 %d" % ck.rng.choice(PPRICE), "PARAM 2 %d" % ck.rng.choice(DPRICE),
+                     "SOLVE " + ck.rng.choice(["DUAL", "PRIMAL", "DUAL"]), "GETBN"]
+            for _ in range(ck.rng.randint(1, 3)):
+                if ck.rng.random() < 0.6:
+                    ent = [(j, rand_q(ck.rng, "small")) for j in range(n) if ck.rng.random() < 0.6]
+                    ent = [(j, v) for j, v in ent if v != 0]
+                    lines.append("ADDROW %s %s %d %s" % (ck.rng.choice("LGE"), qs(rand_q(ck.rng, "small")), len(ent), " ".join("%d %s" % (j, qs(v)) for j, v in ent)))
+                    m += 1
+                else:
+                    ent = [(i, rand_q(ck.rng, "small")) for i in range(m) if ck.rng.random() < 0.6]
+                    ent = [(i, v) for i, v in ent if v != 0]
+                    lines.append("ADDCOL %s 0 %s %d %s" % (qs(rand_q(ck.rng, "small")), ck.rng.choice(["inf", "5"]), len(ent), " ".join("%d %s" % (i, qs(v)) for i, v in ent)))
+                    n += 1
+            lines += [ck.rng.choice(["LOADBN", "LOADBN NONORMS", "DUMP"]), "SOLVE " + ck.rng.choice(["DUAL", "PRIMAL", "DUAL", "EXACT D"]), "ACCESS", "GETBASIS", "DUMP"]
+            cases.append((cid, "\n".join(lines) + "\n"))
         scripts = dict(cases)
         # ---- 1. sanitizer run -------------------------------------------------------------------
         M, outs, crashes = run_cases("h_solve", cases, asan=True, per_case_timeout=120, env={"QSX_SCRATCH": tmp})
